@@ -146,6 +146,16 @@ CLAIMED = {
             'get_searchlight_RDMs with symbolic data: RDM i proved equal to the direct reference RDM of centre i\'s columns (euclidean, '
             'correlation), in centre order, incl. the chunked branch for 1001 centres (thorough); evaluate_models_searchlight order for n_jobs=1.',
             'n_jobs>1 (joblib worker schedules) outside; volumes <=4x4x4; distances use the float sqrt the library uses (stated in the oracle)'),
+    'C20': ('DESIGN.md 4/C20',
+            'io/bids.py and io/mne.py are re-compiled from the working tree on every run (f-strings and str.join rerouted) and executed on '
+            'symbolic strings: every entity value is a z3 String atom constrained to the BIDS label grammar [A-Za-z0-9]+; for all 64 '
+            'presence/absence patterns of ses, task, run, space, desc, derivative z3 proves that parsing recovers each entity, that rebuilding '
+            'returns the original path, and that find_meta_for / find_events_for / find_table_sibling_of / find_mri_sibling_of change exactly '
+            'the requested entities - for ALL values of the grammar, not for sample names; MNE file names likewise. Numeric part: '
+            'SpmGlm.spm_filter proved equal to Y - X0(X0\'Y) per run on symbolic data and filter bases; dataset_from_epochs on a mock epochs '
+            'object with symbolic data.',
+            'POSIX path model (normpath/basename/join) is a stub; file contents (.mat/.json/.fif via scipy.io, json, mne), Meadows file names '
+            '(pet-name table, isdigit) and make_design_matrix (pandas, pchip, numpy.convolve) are outside; find_mri_derivative_files (glob) outside'),
 }
 
 NA = {
@@ -154,6 +164,9 @@ NA = {
     'C18': 'core claim runs through LAPACK pivoted LDL, np.linalg and scipy.stats.norm.ppf and only holds to ~1e-6 in floats; '
            'a floating-point tolerance claim that exact-real symbolic execution cannot state (DESIGN.md "Not applicable")',
 }
+NA['C15'] = ('the property is about the compiled Cython kernel similarity.pyx: it can only be reached by transpiling the .pyx to Python '
+             '(planned in DESIGN.md); the transpiler was not built in the available time and no Cython is installed to rebuild or '
+             'instrument the extension, so the shipped binary cannot be executed symbolically')
 PENDING = 'check not yet built in this session (planned, see DESIGN.md section 4)'
 
 
